@@ -40,10 +40,39 @@ impl<'a> G<'a> {
       5 => "a && b".into(),
       6 => "f()".into(),
       7 => "this".into(),
+      // constants that are constants only as long as the name denotes the global
+      8 => {
+        self.feats.push("cond-global-constant");
+        ["!undefined", "-Infinity", "Infinity", "void 0", "!void 0", "undefined", "!!Infinity"][self.rng.below(7)].into()
+      }
       _ => self.id("c"),
     }
   }
+  /// a class expression with a static initialisation block: statements (mostly a `throw`) evaluated in the middle of
+  /// an expression, wherever that expression stands
+  fn sbx(&mut self, cx: &Cx) -> String {
+    self.feats.push("static-block-expr");
+    let inner = Cx { in_fn: false, in_loop: false, in_switch: false, labels: vec![], loop_labels: vec![], depth: cx.depth + 2 };
+    let b = match self.rng.below(4) {
+      0 => "throw e;".to_string(),
+      1 => "f();".to_string(),
+      2 => format!("if ({}) throw e;", self.cond()),
+      _ => self.block_body(&inner, 2),
+    };
+    format!("class {{ static {{ {} }} }}", b)
+  }
+  /// a test / discriminant: now and then one that holds statements
+  fn cond_x(&mut self, cx: &Cx) -> String {
+    if cx.depth < 5 && self.rng.chance(1, 9) {
+      self.sbx(cx)
+    } else {
+      self.cond()
+    }
+  }
   fn expr(&mut self, cx: &Cx) -> String {
+    if cx.depth < 5 && self.rng.chance(1, 14) {
+      return self.sbx(cx);
+    }
     match self.rng.below(16) {
       // an arrow function that *starts* the expression (and hence the statement, when used as one): its metadata key
       // coincides with the statement's
@@ -187,7 +216,7 @@ impl<'a> G<'a> {
       }
       12..=14 => {
         self.feats.push("if");
-        let c = self.cond();
+        let c = self.cond_x(&cx);
         let a = self.body_stmt(&cx);
         if self.rng.chance(1, 2) {
           self.feats.push("if-else");
@@ -199,14 +228,14 @@ impl<'a> G<'a> {
       }
       15 | 16 => {
         self.feats.push("while");
-        let c = self.cond();
+        let c = self.cond_x(&cx);
         let mut cx2 = cx.clone();
         cx2.in_loop = true;
         format!("while ({}) {}", c, self.loop_body(&cx2))
       }
       17 | 18 => {
         self.feats.push("do-while");
-        let c = self.cond();
+        let c = self.cond_x(&cx);
         let mut cx2 = cx.clone();
         cx2.in_loop = true;
         format!("do {} while ({});", self.loop_body(&cx2), c)
@@ -215,11 +244,15 @@ impl<'a> G<'a> {
         self.feats.push("for");
         let mut cx2 = cx.clone();
         cx2.in_loop = true;
-        let head = match self.rng.below(5) {
+        let head = match self.rng.below(8) {
           0 => ";;".to_string(),
           1 => format!("let i = 0; {}; i++", self.cond()),
           2 => "; true;".to_string(),
-          3 => format!("; {};", self.cond()),
+          3 => format!("; {};", self.cond_x(&cx)),
+          // statements inside the update / the initialiser / the test
+          5 => format!("; {}; {}", self.cond(), self.sbx(&cx)),
+          6 => format!("{}; {};", self.sbx(&cx), self.cond()),
+          7 => format!(";; {}", self.sbx(&cx)),
           _ => "let i = f(); i < n; i++".to_string(),
         };
         format!("for ({}) {}", head, self.loop_body(&cx2))
@@ -229,14 +262,20 @@ impl<'a> G<'a> {
         let mut cx2 = cx.clone();
         cx2.in_loop = true;
         let kw = if self.rng.chance(1, 2) { "in" } else { "of" };
-        format!("for (const k {} xs) {}", kw, self.loop_body(&cx2))
+        let (left, right) = match self.rng.below(6) {
+          0 => (format!("[a = {}]", self.sbx(&cx)), "xs".to_string()),
+          1 => ("const k".to_string(), self.sbx(&cx)),
+          2 => (format!("[a = {}]", self.sbx(&cx)), self.sbx(&cx)),
+          _ => ("const k".to_string(), "xs".to_string()),
+        };
+        format!("for ({} {} {}) {}", left, kw, right, self.loop_body(&cx2))
       }
       22 | 23 => {
         self.feats.push("switch");
         let mut cx2 = cx.clone();
         cx2.in_switch = true;
         let nc = self.rng.below(4);
-        let mut s = format!("switch ({}) {{ ", self.cond());
+        let mut s = format!("switch ({}) {{ ", self.cond_x(&cx));
         let def_at = if self.rng.chance(1, 2) { Some(self.rng.below(nc + 1)) } else { None };
         for i in 0..=nc {
           if def_at == Some(i) {
@@ -297,6 +336,11 @@ impl<'a> G<'a> {
           _ => format!("{{ {}}}", self.block_body(&cx2, 3)),
         };
         format!("{}: {}", l, body)
+      }
+      29 if self.rng.chance(1, 3) => {
+        // sloppy-mode scripts only (a module with the shadowing prelude does not parse and is skipped)
+        self.feats.push("with");
+        format!("with (o) {}", self.body_stmt(&cx))
       }
       29 => format!("{{ {}}}", self.block_body(&cx, 3)),
       30 => {
@@ -362,6 +406,13 @@ pub fn gen_cf_program(rng: &mut Rng) -> (String, Vec<&'static str>) {
     };
     src.push_str(&g.stmt(&cx));
     src.push('\n');
+  }
+  // every sixth program is a module in which `undefined` / `Infinity` are ordinary top-level bindings of the program
+  // (tests that mention them are then not constants)
+  if g.rng.chance(1, 6) {
+    g.feats.push("shadowed-global-constants");
+    let decl = ["const undefined = 1;", "let Infinity = 0;", "var undefined = 5;", "const undefined = 0, Infinity = 0;"][g.rng.below(4)];
+    src = format!("export {{}};\n{}\n{}", decl, src);
   }
   let mut f = g.feats.clone();
   f.sort();
